@@ -26,3 +26,11 @@ func VerifC36ResultBatch(s *Server, method string, val any) (arrow.RecordBatch, 
 	}
 	return serializeResult(info.ResultSchema, val)
 }
+
+// VerifC36SetMinBatchBytes fixes the MaybeWriteToShm size gate for this process
+// (the library reads VGI_RPC_SHM_MIN_BATCH_BYTES once; harnesses of several
+// properties share one binary and set the variable differently).
+func VerifC36SetMinBatchBytes(v int64) {
+	shmMinBatchBytesOnce.Do(func() {})
+	shmMinBatchBytesVal = v
+}
